@@ -108,6 +108,7 @@ type Contract struct {
 	Trusted       bool
 	External      bool
 	Inline        bool
+	Wrapping      bool // arith wrapping: fixed-width two's-complement semantics for + - * and integer conversions
 	AbstractAll   bool // abstract-all: like abstract-calls, and no callee body is read unless named by call-inline
 	AbstractCalls bool
 	MayPanic      bool
@@ -602,6 +603,7 @@ func (w *World) parseFuncContract(it rawItem, pkg *types.Package, external bool)
 			c.NoAlloc = true
 		case "arith":
 			c.Checked = strings.Contains(rest, "checked")
+			c.Wrapping = strings.Contains(rest, "wrapping")
 		case "call-inline":
 			c.InlineCallees = append(c.InlineCallees, strings.Fields(rest)...)
 		case "call-abstract":
